@@ -48,7 +48,7 @@ async def send_subscriptions(get_from_storage, ws_send, log):
                 message = event_as_json(sub_id, event)
             else:
                 # done with stored events
-                message = f'["EOSE","{sub_id}"]'
+                message = f'["EOSE",{json_dumps(sub_id)}]'
 
             await ws_send(message)
             # log.debug("SENT: %s", message)
